@@ -211,5 +211,57 @@ def r11_4(ctx):
     return r
 
 
+def r11_5(ctx):
+    """with strictly in-order reassembly (R11.4) a partially assembled message [0,A) can only be continued at
+    offset A; a peer may legally re-fragment its retransmission (RFC 6347 4.1.1.1), so no later fragment need
+    start at A. Convergence then depends on a first fragment (offset 0) always restarting reassembly."""
+    r = RuleResult("R11.5", "K4", "a first fragment (offset 0) always restarts reassembly")
+    b = ctx.body(D + "process_handshake_payload::{closure#0}")
+    r.scope.append(b.name)
+    clears = [bi for bi, t, p in core.calls_to(b, suffix("::clear")) if mir.has_field(b.term_operand(t["a"][0]), "incomplete_handshake")]
+    r.need("reassembly buffer clear sites", len(clears), 1)
+    # the offset/length comparison that admits a fragment
+    cmp_blocks = []
+    for sb in range(len(b.blocks)):
+        if sb in b.cleanup or b.blocks[sb]["t"]["k"] != "switch":
+            continue
+        term, outs = b.switch_info(sb)
+        if term[0] in ("bin", "call", "un") and mir.has_field(term, "fragment_offset") and \
+                mir.has(term, lambda x: x[0] == "call" and x[1].endswith("::len") and mir.has_field(x, "incomplete_handshake")):
+            cmp_blocks.append(sb)
+    r.need("offset == assembled-length comparisons", len(cmp_blocks), 1)
+    # entry of the fragmented branch: total_length != fragment_length
+    starts = []
+    cut = set()
+    for sb in range(len(b.blocks)):
+        if sb in b.cleanup or b.blocks[sb]["t"]["k"] != "switch":
+            continue
+        term, outs = b.switch_info(sb)
+        neg, tt = False, term
+        if tt[0] == "un" and tt[1] == "Not":
+            neg, tt = True, tt[2]
+        if tt[0] == "bin" and tt[1] in ("Ne", "Eq") and mir.has_field(tt, "total_length") and mir.has_field(tt, "fragment_length"):
+            for tgt, _, meaning in outs:
+                if isinstance(meaning, bool) and ((meaning != neg) is (tt[1] == "Ne")):
+                    starts.append(tgt)
+        if tt[0] == "bin" and tt[1] in ("Ne", "Eq") and mir.has_field(tt, "fragment_offset") and \
+                any(x == ("const", 0) or (x[0] == "const" and x[1] == 0) for x in tt[2:4]):
+            for tgt, _, meaning in outs:
+                if isinstance(meaning, bool) and ((meaning != neg) is (tt[1] == "Ne")):
+                    cut.add((sb, tgt))          # this edge means fragment_offset != 0
+    if not starts:
+        raise core.CheckerError("R11.5: cannot find the `total_length != fragment_length` branch")
+    for cb in cmp_blocks:
+        p = b.path_to(starts, cb, cut_edges=cut, cut_blocks=set(clears))
+        if p is None:
+            r.ok({"site": b.where(cb), "rule": "every path with fragment_offset == 0 clears the buffer before the offset/length comparison"})
+        else:
+            r.violate(b.name, "restart:offset0", b.where(cb),
+                      "a fragment with offset 0 can reach the offset/length comparison without the reassembly buffer being reset: "
+                      "after a lost tail, a re-fragmented retransmission is ignored for ever and the handshake cannot converge",
+                      core.describe_path(b, p))
+    return r
+
+
 def run(ctx):
-    return [r11_1(ctx), r11_2(ctx), r11_3(ctx), r11_4(ctx)]
+    return [r11_1(ctx), r11_2(ctx), r11_3(ctx), r11_4(ctx), r11_5(ctx)]
